@@ -1031,6 +1031,8 @@ def run(P, rep, tier):
     r0519(P, u, E, rep)
     from ..lib_c05b import r_fold_precision
     r_fold_precision(P, u, E, rep, U)
+    from ..lib_c05c import r0521
+    r0521(P, u, E, rep)
 
 
 def _fact_holds(ctx, op, a, b):
@@ -3891,7 +3893,15 @@ def r0512(P, u, E, rep):
                                'for a member of an anonymous struct/union the token cursor must stay at the `.` so that the same designator is resolved again inside it; it is %s' % show(ctx.slot.v),
                                where=where, facts={'path': ctx.trail})
                 else:
-                    rep.ob('R05.12', '%s:%s:member-selected-without-name-test' % (U, fn), False, '%s selects a member without looking at its name' % fn, where=where, facts={'path': ctx.trail})
+                    # the name of the selected member is unconstrained on this path: the path stands for the named AND the anonymous case
+                    seen.update(('named', 'anonymous'))
+                    if isinstance(probe_of(sel), Obj):
+                        rep.ob('R05.12', '%s:%s:member-selected-by-probe-without-anonymity-test' % (U, fn), False,
+                               '%s selects a struct/union member because the identifier is found INSIDE it without having established that the member is anonymous (name == NULL): a NAMED '
+                               'aggregate member that precedes the designated member and contains a member of the same name captures the designator (`.len` on `struct { struct Hdr hdr; int len; }` '
+                               'initialises hdr.len), C11 6.7.9p7' % fn, where=where, facts={'path': ctx.trail})
+                    else:
+                        rep.ob('R05.12', '%s:%s:member-selected-without-name-test' % (U, fn), False, '%s selects a member without looking at its name' % fn, where=where, facts={'path': ctx.trail})
             elif not complete:
                 rep.ob('R05.12', '%s:%s:gives-up-before-the-last-member' % (U, fn), False,
                        '%s %s after %d member(s) although more members may follow' % (fn, 'reports "no such member"' if out[0] != 'ret' else 'returns NULL', len(mems)), where=where, facts={'path': ctx.trail})
@@ -3923,6 +3933,7 @@ def r0512(P, u, E, rep):
                         rep.ob('R05.12', '%s:%s:anonymous-member/%s' % (U, fn, 'passed-over-only-when-it-lacks-the-identifier' if ok else 'passed-over-without-probe'), ok,
                                '%s passes over an anonymous struct/union member without having looked for the identifier inside it' % fn, where=where, facts={'path': ctx.trail})
                 else:
+                    seen.update(('passed-named', 'passed-anonymous'))
                     rep.ob('R05.12', '%s:%s:member-passed-over-without-name-test' % (U, fn), False, '%s passes over a member without looking at its name' % fn, where=where, facts={'path': ctx.trail})
         need = {'named', 'anonymous', 'passed-named', 'passed-anonymous'}
         if not seen >= need:
